@@ -33,6 +33,10 @@ MUTATIONS = {
     'echo-drops-space': (LUA, "            strs.append(token.code)\n            if token.matches(lexer.TokNewline):", "            if not isinstance(token, lexer.TokSpace):\n                strs.append(token.code)\n            if token.matches(lexer.TokNewline):", 'C06', 'red'),
     'quote-not-escaped': (LEX, "                elif c == self._quote:\n                    escaped_chrs.append(b'\\\\' + c)", "                elif False:\n                    pass", 'C06', 'red'),
     'crlf-continuation': (LEX, "                    elif s[i+1:i+3] == b'\\r\\n':", "                    elif False:", 'C06', 'red'),
+    # behaviour changes only on inputs the reference grammar leaves undefined (a number directly followed by a keyword):
+    # the correspondence breaks, no property violation can exist -> no-failing-input-found with a shrunk source
+    'keyword-after-digit': (LEX, [("            i = self._process_token(line)\n", "            self._prev = getattr(self, '_last', b' ')\n            i = self._process_token(line)\n            self._last = line[i-1:i] if i else getattr(self, '_last', b' ')\n"),
+                                 ("                m = pat.match(s)\n                if m:\n", "                m = pat.match(s)\n                if m and tok_class is TokKeyword and self._prev.isalnum():\n                    continue\n                if m:\n")], None, 'C07', 'red'),
     # harmless rewrites
     'harmless-rename': (LEX, "            escaped_chrs = []", "            escaped_chrs = list()", 'C06', 'green'),
     'harmless-condition': (LEX, "            if c == b'\\n'[0]:", "            if c == 10:", 'C07', 'green'),
@@ -41,14 +45,17 @@ MUTATIONS = {
 
 def run(name):
     f, old, new, check, expect = MUTATIONS[name]
+    edits = old if isinstance(old, list) else [(old, new)]
     if os.path.exists(SCRATCH):
         shutil.rmtree(SCRATCH)
     shutil.copytree(REPO, SCRATCH, ignore=shutil.ignore_patterns('.git', '__pycache__', '*.pyc'))
     p = os.path.join(SCRATCH, f)
     src = open(p).read()
-    if src.count(old) != 1:
-        return name, check, expect, 'mutation does not apply (%d occurrences)' % src.count(old)
-    open(p, 'w').write(src.replace(old, new))
+    for old, new in edits:
+        if src.count(old) != 1:
+            return name, check, expect, 'mutation does not apply (%d occurrences)' % src.count(old)
+        src = src.replace(old, new)
+    open(p, 'w').write(src)
     env = dict(os.environ)
     env['PICOTOOL_REPO'] = SCRATCH
     pr = subprocess.run(['/venv/bin/python', os.path.join(VERIF, 'harness', 'check.py'), check, '--tier', 'quick'],
